@@ -373,6 +373,16 @@ def run_dummy_scripted(ck, case):
     return labels, feats
 
 
+def guarded(fn, ck, case, generator, kind):
+    """Valid arguments must not raise: an exception from the implementation is a finding, not a crash of the check."""
+    try:
+        return fn(ck, case)
+    except Exception as e:  # noqa: BLE001
+        desc = {k: (v if isinstance(v, (int, float, str, list, tuple)) and not isinstance(v, bool) else repr(v)) for k, v in case.items()}
+        ck.violation(dict(clause="gen_accepts_valid", generator=generator, raised=type(e).__name__), dict(kind_=kind, case=desc, error=repr(e)))
+        return None
+
+
 def draw_lit(d):
     return f"D {fl(d[0])} {fl(d[1])} {fl(d[2])} {fl(d[3])} {z(d[4])}"
 
@@ -408,7 +418,7 @@ def gen_generators(ck):
         "each run twice (determinism), every sample checked for range [0,10) and the label rule in exact rational arithmetic; "
         "draws replayed on a private RandomState(seed) and fed to the model"
     )
-    seeds = [0, 1, 2**32 - 1] + [rng.randrange(2**32) for _ in range(3 if not thorough else 20)]
+    seeds = [0, 1, 2**32 - 1] + [rng.randrange(2**32) for _ in range(3 if not thorough else 30)]
     noises = [0, 0.0, False, 1, 1.0, 0.1, 0.5, round(rng.random(), 3)]
     for seed in seeds:
         for block in (1, 2, 3, 4):
@@ -416,7 +426,7 @@ def gen_generators(ck):
                 n = rng.choice([1, 2, 3, 10, 40] + ([300] if thorough else []))
                 blk = rng.choice([block, block, block, float(block), np.int64(block)] + ([True] if block == 1 else []))
                 case = dict(seed=seed, block=blk, noise=noise, n=n)
-                r = run_sea_seeded(ck, case)
+                r = guarded(run_sea_seeded, ck, case, 'SEA', 'sea_seeded')
                 ck.count("sea_seeded")
                 ck.count(f"noise_class_{'0' if float(noise) == 0 else '1' if float(noise) == 1 else 'mid'}")
                 ck.case(dict(kind="sea_seeded", seed=seed, block=repr(blk), noise=repr(noise), n=n), nontrivial=n > 1, key=repr(("ss", seed, blk, noise, n)))
@@ -432,7 +442,7 @@ def gen_generators(ck):
         "threshold +- 2^-k, one-ulp inexact sums (counted as near ties), u in {0, noise, pred(noise), 1-2^-53}; also checks the consumption "
         "protocol (randint drawn iff u < noise)"
     )
-    for _ in range(60 if not thorough else 500):
+    for _ in range(60 if not thorough else 1500):
         block = rng.choice([1, 2, 3, 4])
         noise = rng.choice([0, 0.0, False, 0, 1, 1.0, True, 0.1, 0.5, np.float64(0.25)])
         nzf = float(noise)
@@ -445,7 +455,7 @@ def gen_generators(ck):
                 us.append(math.nextafter(nzf, 0.0))
             draws.append((x0, x1, rng.choice([0.0, 5.0, 9.75]), rng.choice(us), rng.randrange(2)))
         case = dict(block=block, noise=noise, draws=draws)
-        r = run_sea_scripted(ck, case)
+        r = guarded(run_sea_scripted, ck, case, 'SEA', 'sea_scripted')
         ck.count("sea_scripted")
         on = sum(1 for d in draws if Fraction(d[0]) + Fraction(d[1]) == Fraction(THR[block]))
         ck.count("sea_draws_on_threshold", on)
@@ -460,19 +470,19 @@ def gen_generators(ck):
         for cls in (0, 1) if not thorough else (0, 1, True, False, 1.0, np.int64(0)):
             n = rng.choice([1, 2, 3, 10, 40])
             case = dict(seed=seed, cls=cls, n=n)
-            r = run_dummy_seeded(ck, case)
+            r = guarded(run_dummy_seeded, ck, case, 'Dummy', 'dummy_seeded')
             ck.count("dummy_seeded")
             ck.case(dict(kind="dummy_seeded", seed=seed, cls=repr(cls), n=n), nontrivial=n > 1, key=repr(("ds", seed, cls, n)))
             if r is None:
                 continue
             exprs.append(f"dummy_obs {pv(cls)} {pv(n)} [{'; '.join(f'E {fl(a)} {fl(b_)}' for a, b_ in r[2])}]")
             meta.append(("dummy_seeded", case, r, True))
-    for _ in range(30 if not thorough else 200):
+    for _ in range(30 if not thorough else 600):
         cls = rng.choice([0, 1, True, False, 1.0, 0.0, np.int64(1)])
         draws = [boundary_pairs(rng, 10.0) for _ in range(rng.randrange(2, 9))]
         draws = [(min(a, math.nextafter(10.0, 0)), min(max(b_, 0.0), math.nextafter(10.0, 0))) for a, b_ in draws]
         case = dict(cls=cls, draws=draws)
-        r = run_dummy_scripted(ck, case)
+        r = guarded(run_dummy_scripted, ck, case, 'Dummy', 'dummy_scripted')
         ck.count("dummy_scripted")
         on = sum(1 for d in draws if Fraction(d[0]) + Fraction(d[1]) == 10)
         ck.count("dummy_draws_on_10", on)
@@ -509,12 +519,16 @@ def gen_generators(ck):
     from frouros.datasets.synthetic import SEA
 
     for seed, k, n in [(3, 2, 5), (4, 0, 1), (5, 5, 5)]:
-        full = [(X.tolist(), int(y)) for X, y in SEA(seed=seed).generate_dataset(block=2, noise=0.3, num_samples=n)]
-        g = SEA(seed=seed).generate_dataset(block=2, noise=0.3, num_samples=n)
-        part = [(X.tolist(), int(y)) for X, y in itertools.islice(g, k)]
-        rest = list(g)
-        stopped = next(g, "STOP") == "STOP"
         ck.case(dict(kind="sea_lazy_prefix", seed=seed, k=k, n=n), nontrivial=True)
+        try:
+            full = [(X.tolist(), int(y)) for X, y in SEA(seed=seed).generate_dataset(block=2, noise=0.3, num_samples=n)]
+            g = SEA(seed=seed).generate_dataset(block=2, noise=0.3, num_samples=n)
+            part = [(X.tolist(), int(y)) for X, y in itertools.islice(g, k)]
+            rest = list(g)
+            stopped = next(g, "STOP") == "STOP"
+        except Exception as e:  # noqa: BLE001
+            ck.violation(dict(clause="gen_accepts_valid", generator="SEA", raised=type(e).__name__), dict(kind_="sea_lazy", seed=seed, k=k, n=n, error=repr(e)))
+            continue
         if part != full[:k] or len(rest) != n - k or not stopped:
             ck.violation(dict(clause="gen_count", generator="SEA", rng="seeded", aspect="lazy-prefix"), dict(kind_="sea_lazy", seed=seed, k=k, n=n, prefix=part, full=full))
 
@@ -870,16 +884,18 @@ def run_download(ck, tmp, mirrors, init, monitor=True):
                     exp_calls.append((1, i))
             if code != 0:
                 ck.violation(dict(clause="download_first_reachable", aspect="raises-although-a-mirror-is-reachable", got=code), det)
-            elif after != base + b_:
-                ck.violation(dict(clause="download_first_reachable", aspect="file-bytes", first_reachable=first, n_mirrors=len(mirrors)), dict(det, expected=list(base + b_)))
             elif tp.log != exp_calls:
                 ck.violation(dict(clause="download_first_reachable", aspect="mirror-order"), dict(det, expected_calls=exp_calls))
-            elif base:
+            elif after == b_:
+                pass  # exactly the first reachable mirror's bytes
+            elif base and after == base + b_:
                 # the property's literal wording: "ends with EXACTLY the first reachable mirror's bytes"
                 ck.violation(
                     dict(clause="download_exact_bytes", input_class="target-file-has-prior-content"),
                     dict(det, what="bytes are appended to the existing content (open(..., 'ab')); file != mirror bytes", expected=list(b_)),
                 )
+            else:
+                ck.violation(dict(clause="download_first_reachable", aspect="file-bytes", first_reachable=first, n_mirrors=len(mirrors)), dict(det, expected=list(b_)))
         if tp.bad_kwargs:
             ck.violation(dict(clause="download_timeout", aspect="request-without-timeout"), dict(det, kwargs=repr(tp.bad_kwargs)))
     # leave no file behind
@@ -915,7 +931,7 @@ def gen_download(ck, tmp):
     cases = []  # (mirrors, init)
     maxk = 3
     for k in range(0, maxk + 1):
-        names = [list(mirror_classes(i, thorough and k <= 2).items()) for i in range(k)]
+        names = [list(mirror_classes(i, thorough).items()) for i in range(k)]
         for combo in itertools.product(*names):
             ms = [(c[1][0], c[1][1], c[0]) for c in combo]
             cases.append((ms, "fresh"))
@@ -923,7 +939,7 @@ def gen_download(ck, tmp):
                 cases.append((ms, "missing"))
                 cases.append((ms, b"PRIOR"))
     if thorough:
-        for _ in range(1500):  # 4 and 5 mirrors, random assignments
+        for _ in range(4000):  # 4 and 5 mirrors, random assignments
             k = rng.choice([4, 5])
             ms = []
             for i in range(k):
@@ -986,7 +1002,7 @@ def gen_download(ck, tmp):
     ]
     for init, ops in fixed:
         scen.append((init, ops))
-    for _ in range(40 if not thorough else 300):
+    for _ in range(40 if not thorough else 1000):
         init = rng.choice(["fresh", "fresh", "missing", b"PRIOR", ARFF])
         ops = []
         for _ in range(rng.randrange(1, 6)):
